@@ -20,9 +20,10 @@
      F-C02-3  empty GlobalLayerMaskInfo, < 17 bytes after it    -> dropped on re-read, second save shorter
      F-C02-4  tagged blocks without a GlobalLayerMaskInfo       -> re-saved file can become UNREADABLE
      F-C02-5  35-byte mask block with both feathers             -> re-saved file UNREADABLE (reader-side F-C01-3)
+   (and one in a payload class, stage 2 below: F-C02-6 SectionDividerSetting of 8..11 bytes loses its sub type)
    [resave_guard] is the conjunction of the five guards; on the reader's range it is EQUIVALENT to
    well-formedness ([read_wf_exact]): there is no sixth class in the model. *)
-From PsdV Require Import Base.Prelude Psd.Codec Psd.Model Psd.Proofs Psd.Corr Psd.Resave Psd.ResaveProofs.
+From PsdV Require Import Base.Prelude Psd.Codec Psd.Model Psd.Proofs Psd.Corr Psd.Leaf Psd.LeafProofs Psd.Resave Psd.ResaveProofs.
 From Coq Require Import ZArith List Bool Lia.
 Import ListNotations.
 Open Scope Z_scope.
@@ -77,6 +78,35 @@ Proof.
   split; [apply after_write_res|]. split; [apply after_write_blocks|apply after_write_record_blocks].
 Qed.
 Print Assumptions unknown_preserved.
+
+(* CPython's Py_ssize_t limit (8-byte lengths >= 2^63 in version-2 files raise OverflowError): the reader with
+   those checks, [read_psd_py] - the function the harness evaluates - only rejects more than [read_psd], so
+   everything above holds for every input IT accepts *)
+Theorem reader_py_refines :
+  forall dec_s b d, read_psd_py dec_s b = Ok d -> read_psd dec_s b = Ok d.
+Proof. exact read_psd_py_refines. Qed.
+Print Assumptions reader_py_refines.
+
+Theorem resave_guarded_py :
+  forall enc_s dec_s, codec_ok enc_s dec_s ->
+  forall pad b d s n, 0 < pad ->
+    read_psd_py dec_s b = Ok d -> resave_guard d = true ->
+    write_psd enc_s pad d = Ok (s, n) ->
+    exists d', read_psd dec_s s = Ok d' /\ eqv d d' /\ write_psd enc_s pad d' = Ok (s, n) /\
+               psd_after_write d' = d'.
+Proof.
+  intros enc_s dec_s Hc pad b d s n Hp Hr. apply (resave_guarded enc_s dec_s Hc pad b d s n Hp).
+  now apply read_psd_py_refines.
+Qed.
+Print Assumptions resave_guarded_py.
+
+(* the two readers differ: a version-2 file whose layer-info length is 2^64-1 *)
+Definition hdr2 : list Z := [56;66;80;83; 0;2; 0;0;0;0;0;0; 0;1; 0;0;0;1; 0;0;0;1; 0;8; 0;1].
+Definition w_ovf : list Z :=
+  hdr2 ++ [0;0;0;0; 0;0;0;0] ++ [0;0;0;0;0;0;0;10;  255;255;255;255;255;255;255;255;  0;0] ++ [0;0].
+Example reader_py_stricter :
+  (exists d, read_psd raw_codec w_ovf = Ok d) /\ read_psd_py raw_codec w_ovf = Err OverflowErr.
+Proof. split; [eexists; vm_compute; reflexivity|vm_compute; reflexivity]. Qed.
 
 (* ------------------------------------------------------------------ the hypotheses are satisfiable *)
 Example codec_ok_raw : codec_ok raw_codec raw_codec.
@@ -173,7 +203,58 @@ Proof.
   - do 6 eexists. split; [vm_compute; reflexivity|]. split; [vm_compute; reflexivity|].
     split; [vm_compute; reflexivity|]. split; [reflexivity|]. split; [reflexivity|].
     split; [vm_compute; reflexivity|]. reflexivity.
-  - do 3 eexists. split; [vm_compute; reflexivity|]. split; vm_compute; reflexivity.
-  - do 3 eexists. split; [vm_compute; reflexivity|]. split; vm_compute; reflexivity.
+  - do 3 eexists. split; [vm_compute; reflexivity|]. split; [vm_compute; reflexivity|vm_compute; reflexivity].
+  - do 3 eexists. split; [vm_compute; reflexivity|]. split; [vm_compute; reflexivity|vm_compute; reflexivity].
 Qed.
 Print Assumptions resave_refuted.
+
+(* ------------------------------------------------------------------ stage 2: the payload classes modelled in Psd/Leaf.v
+   (value elements, SectionDividerSetting, SheetColorSetting, ReferencePoint, ChannelBlendingRestrictionsSetting,
+   Color, FilterMask, resource Byte/Integer/ShortInteger): whatever bytes the class reader accepts - truncated,
+   over-long, any content - the object read is re-written and read back equal, for every padding, EXCEPT the
+   one class excluded by [leaf_guard] (F-C02-6). *)
+Theorem leaf_read_wf :
+  forall k b l, read_leaf k b = Ok l -> kind_of l = k /\ (leaf_guard l = true -> wf_leaf l = true).
+Proof. exact read_leaf_wf. Qed.
+Print Assumptions leaf_read_wf.
+
+Theorem leaf_resave_guarded :
+  forall k b l pad s n, 0 < pad ->
+    read_leaf k b = Ok l -> leaf_guard l = true -> write_leaf pad l = Ok (s, n) ->
+    read_leaf k s = Ok l.
+Proof. exact leaf_resave. Qed.
+Print Assumptions leaf_resave_guarded.
+
+Example leaf_resave_guarded_satisfiable :
+  exists l s n, read_leaf KSectionDivider [0;0;0;1; 56;66;73;77; 112;97;115;115; 0;0;0;9; 1;2] = Ok l /\
+    leaf_guard l = true /\ write_leaf 4 l = Ok (s, n) /\ n = 16 /\
+  exists l2 s2 n2, read_leaf KString [0;0;0;2; 0;65; 216;61; 9;9;9] = Ok l2 /\ leaf_guard l2 = true /\
+    write_leaf 4 l2 = Ok (s2, n2) /\ n2 = 8.
+Proof.
+  do 3 eexists. split; [vm_compute; reflexivity|]. split; [reflexivity|]. split; [vm_compute; reflexivity|].
+  split; [reflexivity|]. do 3 eexists. split; [vm_compute; reflexivity|]. split; [reflexivity|].
+  split; [vm_compute; reflexivity|reflexivity].
+Qed.
+
+(* the same inside a file (vh.c02.W6): invisible at container level, where the payload is raw bytes - the container
+   guards hold and the container re-save is lossless; the loss happens inside the payload class *)
+Definition w6 : list Z :=
+  hdr1 ++
+  [0;0;0;0;0;0;0;0;0;0;0;74;0;0;0;70;0;1;0;0;0;0;0;0;0;0;0;0;0;1;0;0;0;1;0;0;56;66;73;77;110;111;114;109;255;0;8;
+   0;0;0;0;32;0;0;0;0;0;0;0;0;0;0;0;0;56;66;73;77;108;115;99;116;0;0;0;8;0;0;0;1;0;0;0;7;0;0;0;0;0;0;0;0;0;0;0;0;
+   0;0;0;0;0;0;0;0;0;0;0;0].
+Example w6_container_level :
+  exists d, read_psd raw_codec w6 = Ok d /\ resave_guard d = true /\
+    map (fun r => map tb_data (r_blocks r)) (doc_records d) = [[[0;0;0;1; 0;0;0;7]]].
+Proof. eexists. split; [vm_compute; reflexivity|]. split; vm_compute; reflexivity. Qed.
+
+(* F-C02-6: kind, then 4 more bytes: no room for signature + blend mode, but room for a sub type *)
+Theorem leaf_resave_refuted :
+  exists b l s n l', b = [0;0;0;1; 0;0;0;7] /\ read_leaf KSectionDivider b = Ok l /\ leaf_guard l = false /\
+    write_leaf 4 l = Ok (s, n) /\ read_leaf KSectionDivider s = Ok l' /\ l' <> l /\
+    l = LSectionDivider 1 None None (Some 7) /\ l' = LSectionDivider 1 None None None.
+Proof.
+  do 5 eexists. split; [reflexivity|]. split; [vm_compute; reflexivity|]. split; [reflexivity|].
+  split; [vm_compute; reflexivity|]. split; [vm_compute; reflexivity|]. split; [discriminate|]. split; reflexivity.
+Qed.
+Print Assumptions leaf_resave_refuted.
